@@ -1,7 +1,7 @@
 (* C02 - every runner request is answered exactly once; queue full => busy error at once; the scheduler drains.
    Theorems only. *)
 From Coq Require Import List ZArith NArith Bool Lia Arith.
-From V Require Import Sched.Lts Sched.Reach Sched.InvOwn Sched.InvLock Sched.Refute Sched.Dead Sched.InvRef Sched.Drain Sched.Quiesce Sched.InvLoad Sched.Examples.
+From V Require Import Sched.Lts Sched.Reach Sched.InvOwn Sched.InvLock Sched.Refute Sched.Dead Sched.InvRef Sched.Drain Sched.Quiesce Sched.InvLoad Sched.Term Sched.Examples.
 Import ListNotations.
 
 (* A submit that finds the pending queue full is answered in the same step with the busy error, the request is
@@ -113,3 +113,93 @@ Proof.
   eapply no_grant_loading; eauto. eapply run_Reach; eauto.
 Qed.
 Print Assumptions C02_reply_success_loaded.
+
+(* ------------------------------------------------------------------ liveness: the scheduler reaches quiescence *)
+
+(* Termination of the internal steps, modulo Tick.  [istep c s' s]: s' is the result of one step "LRun t alt" of s -
+   a goroutine of the scheduler performs its next synchronisation operation; the outcome of a load (WaitUntilRunning
+   ok / error), of a ping, of newServer and of the fit prediction is the alternative [alt] of that step, so loads in
+   flight DO finish.  No Submit / Cancel / Expire / Tick happens.  For the repaired scheduler this relation is
+   well-founded on every reachable state: no infinite run, whatever the interleaving and the outcomes.  The 10 ms
+   expiry-retry loop and the 250 ms re-queue are goroutines that sleep until a Tick: within an instant they are inert,
+   across instants the retry loop goes round once per Tick for as long as the runner's holder has not finished - that
+   the holder finishes is the environment's obligation (hypothesis [settled] below), not something the scheduler
+   can enforce.  Measure: Sched/Term.v. *)
+Theorem C02_internal_terminates :
+  forall c m ls s ev, fixed c -> run c (init_m m) ls = Some (s, ev) -> Acc (istep c) s.
+Proof. intros c m ls s ev Hf H. eapply internal_terminates; eauto. eapply run_Reach; eauto. Qed.
+Print Assumptions C02_internal_terminates.
+
+(* Hence some (indeed every maximal) continuation by internal steps ends in a state where no step is enabled. *)
+Theorem C02_reaches_quiescence :
+  forall c m ls s ev, fixed c -> run c (init_m m) ls = Some (s, ev) ->
+  exists ls' s' ev', internal ls' /\ run c s ls' = Some (s', ev') /\ quiescent c s'.
+Proof. intros c m ls s ev Hf H. apply reaches_quiescent. eapply C02_internal_terminates; eauto. Qed.
+Print Assumptions C02_reaches_quiescence.
+
+Lemma run_app c : forall l1 l2 s s1 e1 s2 e2,
+  run c s l1 = Some (s1, e1) -> run c s1 l2 = Some (s2, e2) -> run c s (l1 ++ l2) = Some (s2, e1 ++ e2).
+Proof.
+  induction l1 as [|l tl IH]; simpl; intros l2 s s1 e1 s2 e2 H1 H2.
+  - inversion H1; subst. exact H2.
+  - destruct (step c s l) as [[sa ea]|]; try discriminate.
+    destruct (run c sa tl) as [[sb eb]|] eqn:Er; try discriminate. inversion H1; subst.
+    rewrite (IH l2 sa s1 eb s2 e2 Er H2). rewrite app_assoc. reflexivity.
+Qed.
+
+(* Every un-cancelled request is answered exactly once, and the scheduler drains: from any reachable state of the
+   repaired scheduler the internal steps lead to a quiescent state, and if in that state the environment has met its
+   obligations - every request that was handed a runner has finished (is cancelled) and no keep-alive timer is
+   pending ([settled]), no retry / re-queue goroutine is asleep ([no_sleepers]: time has passed) - then every
+   un-cancelled request has exactly one reply, nothing is loaded and every runner that was started has been shut
+   down.  (If the obligations are not met yet the quiescent state is the one in which the scheduler waits for them.) *)
+Theorem C02_answered_exactly_once :
+  forall c m ls s ev, fixed c -> 1 <= c_maxq c -> run c (init_m m) ls = Some (s, ev) ->
+  exists ls' s' ev', internal ls' /\ run c s ls' = Some (s', ev') /\ quiescent c s' /\
+    (settled s' -> no_sleepers s' ->
+     forall q x, getq s' q = Some x -> q_cancelled x = false -> length (q_replies x) = 1).
+Proof.
+  intros c m ls s ev Hf Hq H.
+  destruct (C02_reaches_quiescence c m ls s ev Hf H) as (ls' & s' & ev' & Il & Hr & Q).
+  exists ls', s', ev'. split; [auto|]. split; [auto|]. split; [auto|]. intros St Ns.
+  pose proof (run_app c _ _ _ _ _ _ _ H Hr) as H'.
+  destruct (C02_quiescent_complete c m _ _ _ Hf Hq H' Q St Ns) as (_ & _ & A). exact A.
+Qed.
+Print Assumptions C02_answered_exactly_once.
+
+Theorem C02_drains :
+  forall c m ls s ev, fixed c -> 1 <= c_maxq c -> run c (init_m m) ls = Some (s, ev) ->
+  exists ls' s' ev', internal ls' /\ run c s ls' = Some (s', ev') /\ quiescent c s' /\
+    (settled s' -> no_sleepers s' -> loaded s' = [] /\ forall r x, getr s' r = Some x -> r_closed x = true).
+Proof.
+  intros c m ls s ev Hf Hq H.
+  destruct (C02_reaches_quiescence c m ls s ev Hf H) as (ls' & s' & ev' & Il & Hr & Q).
+  exists ls', s', ev'. split; [auto|]. split; [auto|]. split; [auto|]. intros St Ns.
+  pose proof (run_app c _ _ _ _ _ _ _ H Hr) as H'.
+  destruct (C02_quiescent_complete c m _ _ _ Hf Hq H' Q St Ns) as (A & B & _). split; auto.
+Qed.
+Print Assumptions C02_drains.
+
+(* NOT proved (kept as the statement of record): liveness across Ticks - once every request has finished and no
+   keep-alive is infinite, finitely many rounds of "Tick past every deadline, then internal steps" empty the
+   scheduler.  What is missing is a measure over the rounds: a round shuts a runner down, or places a request the
+   pending loop still holds (the pending loop does not look at the context again once it has dequeued a request, so it
+   may still load a runner for a finished request, which then lives for one keep-alive), and a retry goroutine goes
+   back to sleep only if a request was handed a runner in the same round.  Within a round termination is
+   C02_internal_terminates, and the final state is characterised by C02_quiescent_complete. *)
+Definition only_time_passes (ls : list label) : Prop :=
+  Forall (fun l => match l with LRun _ _ | LTick _ => True | _ => False end) ls.
+Definition finite_keep_alives (s : state) : Prop :=
+  (forall q x, getq s q = Some x -> sp_ka (q_spec x) <> Some forever) /\
+  (forall r x, getr s r = Some x -> r_dur x <> forever).
+Definition C02_drains_full : Prop :=
+  forall c m ls s ev, fixed c -> 1 <= c_maxq c -> run c (init_m m) ls = Some (s, ev) ->
+  (forall q x, getq s q = Some x -> q_cancelled x = true) -> finite_keep_alives s ->
+  exists ls' s' ev', only_time_passes ls' /\ run c s ls' = Some (s', ev') /\
+    loaded s' = [] /\ (forall r x, getr s' r = Some x -> r_closed x = true).
+
+Example C02_reaches_quiescence_nonvacuous :
+  (* the load / grant / cancel / finish / expire / unload run ends in a state in which no step is enabled *)
+  exists s ev, run cfg_on (init_m 1) (ex_load_unload ++ [LRun 0 1%Z]) = Some (s, ev) /\ internal [LRun 0 1%Z] /\
+    enabled_b cfg_on s = false /\ loaded s = [].
+Proof. vm_compute. eexists; eexists; repeat split; try reflexivity. repeat constructor. Qed.
